@@ -714,9 +714,9 @@ func TestVerifC50(t *testing.T) {
 	// every case allocates a request and a small body; the live heap is tiny
 	defer debug.SetGCPercent(debug.SetGCPercent(1000))
 
-	coreN := r.Pick(4, 6)
+	coreN := r.Pick(4, 5)
 	fullN := r.Pick(3, 4)
-	dirN := r.Pick(3, 5)
+	dirN := r.Pick(3, 4)
 	tr := c50build(t, filepath.Join(base, "tree"), 7)
 	c := &c50run{r: r, t: t, tr: tr, out: map[string]int64{}, sampled: map[string]bool{}, seenSig: map[string]bool{},
 		mods: map[bool]*ModuleStatic{
